@@ -16,6 +16,31 @@ with tempfile.TemporaryDirectory() as d:
             passed.add(tc.get("classname") + "::" + tc.get("name"))
 want = set(base["stable_pass"])
 missing = sorted(want - passed)
+
+
+def nodeid(t):
+    cls, name = t.split("::", 1)
+    parts = cls.split(".")
+    for k in range(len(parts), 0, -1):
+        f = os.path.join(repo, *parts[:k]) + ".py"
+        if os.path.exists(f):
+            return "::".join([os.path.join(*parts[:k]) + ".py"] + parts[k:] + [name])
+    return None
+
+
+# load-sensitive tests (benchmark timings, 900 s time-outs under a busy machine): re-run what did not
+# pass once more, alone and without xdist, before calling it a failure
+if missing and len(missing) <= 40 and os.environ.get("BASELINE_RETRY", "1") == "1":
+    ids = [n for n in map(nodeid, missing) if n]
+    with tempfile.TemporaryDirectory() as d:
+        xml = os.path.join(d, "r2.xml")
+        subprocess.run(["/venv/bin/python", "-m", "pytest", "-q", "-p", "no:cacheprovider", "--timeout=1800", f"--junitxml={xml}"] + ids,
+                       cwd=repo, env=env, capture_output=True, text=True)
+        if os.path.exists(xml):
+            for tc in ET.parse(xml).getroot().iter("testcase"):
+                if not any(ch.tag in ("failure", "error", "skipped") for ch in tc):
+                    passed.add(tc.get("classname") + "::" + tc.get("name"))
+    missing = sorted(want - passed)
 print(f"stable_pass={len(want)} passed_now={len(passed)} missing={len(missing)}")
 for m in missing[:40]: print("  NOT PASSING:", m)
 print(p.stdout[-400:])
